@@ -47,6 +47,8 @@ def tpl_group(size, kb, conc, who, s, o1, a1, o3, a3, settle0, t, order, re=0, _
                 rb = it.apply(3, group="B")
             elif kb == 1:
                 rb = it.map(3, conc, stars=0, group="B")
+            elif kb == 3:
+                rb = it.map(3, conc, stars=0, group="B", iterfail=2)     # the iterable raises after two elements
             else:
                 rb = it.map(3, conc, stars=1, group="B")
             if ra is None:
@@ -248,12 +250,12 @@ def tpl_sgroup(size, who, o1, a1, o3, a3, settle0, t, _twin=False):
 def families(tier):
     thorough = tier == "thorough"
     P = ["size", "kb", "conc", "who", "s", "o1", "a1", "o3", "a3", "settle0", "t", "order", "re"]
-    pre = ["size >= 0", "0 <= kb <= 2", "1 <= conc <= 3", "0 <= who <= 1", "0 <= s <= 3", "0 <= o1 <= 3", "a1 >= 0",
+    pre = ["size >= 0", "0 <= kb <= 3", "1 <= conc <= 3", "0 <= who <= 1", "0 <= s <= 3", "0 <= o1 <= 3", "a1 >= 0",
            "0 <= o3 <= 2", "a3 >= 0", "0 <= settle0 <= 1", "t >= 0", "0 <= order <= 1", "0 <= re <= 1", "re == 0 or (s == 0 and who == 0)", "settle0 == 1 or o1 == 0", "kb >= 1 or conc == 1"]
     if not thorough:
-        pre += ["kb <= 1", "kb == 0 or conc == 2", "1 <= size <= 3", "s == 0 or o3 >= 1", "s == 0 or settle0 == 1", "o1 <= 1 or o1 == 3",
+        pre += ["kb <= 1 or kb == 3", "kb == 0 or conc == 2", "1 <= size <= 3", "s == 0 or o3 >= 1", "s == 0 or settle0 == 1", "o1 <= 1 or o1 == 3",
                 "settle0 == 0 or order == 0", "a1 <= 2", "a3 <= 2", "s == 0 or who == 0", "o1 != 3 or s == 0"]
-        parts = []
+        parts = [["kb == 3", "who == %d" % who_, "settle0 == 1", "s == 0", "o1 <= 1"] for who_ in (0, 1)]
         for kb in (0, 1):
             for who in (0, 1):
                 for order in (0, 1):
@@ -269,7 +271,7 @@ def families(tier):
     else:
         pre += ["conc <= 2", "size <= 4", "s == 0 or o3 >= 1", "s == 0 or settle0 == 1", "settle0 == 0 or order == 0", "a1 <= 3", "a3 <= 3"]
         parts = []
-        for kb in (0, 1, 2):
+        for kb in (0, 1, 2, 3):
             for who in (0, 1):
                 for order in (0, 1):
                     parts.append(["kb == %d" % kb, "who == %d" % who, "settle0 == 0", "s == 0", "order == %d" % order])
